@@ -111,12 +111,13 @@ def _parse_string(s):
             s_frac = s_count[-n:] + s_frac
             s_count = s_count[:-n]
             exponent += n
+            s_frac = "0" * -exponent + s_frac
         elif exponent > 0:
             n = min(len(s_frac), exponent)
             s_count = s_count + s_frac[:n]
             s_frac = s_frac[n:]
             exponent -= n
-        factor *= 10 ** exponent
+            s_count = s_count + "0" * exponent
 
     frac = float("0." + s_frac) * factor
     count = float("0" + s_count) * factor
